@@ -1,4 +1,6 @@
 import MsqProofs.Lemmas.LexLinkDml2
+import MsqProofs.Lemmas.LexLinkQ2M
+import MsqProofs.Props.C03Q2
 import MsqProofs.Lemmas.LexScriptPrinted
 import MsqProofs.Props.C03QL
 import MsqProofs.Props.C03D
@@ -247,3 +249,267 @@ example : parseStatementsText .MYSQL (C10.scriptOf C10.Part.text ([(d0, " ;\n".t
     ⟨by decide, by decide, (by decide : (C10.semis []).length ≤ 1)⟩).2
 
 end C03.DmlText
+
+/-! # Part 2 — the LARGER nested fragment `TQ2.FragQ2` / `TQ2.FragE4` at TEXT level
+
+`Props/C03Q2.lean` proves T-parse on tokens for CAST / EXTRACT / IF / array index / window functions, JOIN … USING, LATERAL VIEW, GROUPING
+SETS / WITH CUBE / WITH ROLLUP, NULLS FIRST / LAST, SORT / DISTRIBUTE / CLUSTER BY.  Here the lexer link for these productions
+(`Lemmas/LexLinkQ2*.lean`: the mirror `LL2.prE4L` / `prQ2L`, the node lemmas of the old productions re-derived by
+`tools/dev/gen_lexlink_q2.py`, the new ones by hand, ONE mutual induction `LL2.good_all`).
+
+* `C03.lex_prQ2` : `FragQ2 d q → LeafQ2 d q → ∃ str, PR.prQ d q = ok str ∧ str.toList = prQ2L d q ∧ lex str = toksQ2 d noX q`;
+* `C03.tquery2_text`, `C01.query_round_trip_text2`, `C02.lex_prE4`, `C02.tparse4_text`, `C03.hive_pre_query2`.
+
+**What `LeafQ2 d q` says** (`LL2.leavesQ2` = payload items `.old x` with `LexLink.leafOK d x` as in Props/C03QL.lean — LATERAL VIEW names are
+plain words, their column aliases `nameLex` — and GUARDS `.guard p`, conditions the token-level fragment does not have):
+* dialect: `a[i]` and SORT / DISTRIBUTE / CLUSTER BY only for `d = HIVE`, LATERAL VIEW only for HIVE and DEFAULT — for the other dialects the
+  printer raises (C13.printable_iff), so there is no text;
+* `[ … ]`: the lexer reads `a[i]` as the tokens of `a` followed by ONE `slice` group with the ARRAY_INDEX mark whose children are the tokens
+  of `i` — exactly `TQ2.arr` (F-C04-2, the group's `source` renders with round brackets, does not matter: the parser reads the children).
+  But `]` is no delimiter of the link's context predicate, so the index expression must END its last token by itself: `LL2.idxInnerOK i` =
+  `i` is a column, a numeral, a quoted string, or is printed in brackets (level above 8).  `a[i + 1]`, `a[f(x)]` are NOT covered at text
+  level (they are at token level);
+* a grouping set with ONE element is printed with or without brackets according to the first CHARACTER of the element's text
+  (`node.py`: `startswith("(")`), the token-level printer decides by the first TOKEN; the two agree when the element is a column, a bracketed
+  list / sub-query, or is printed in brackets (`LL2.setElemOK`).  Other single elements (`GROUPING SETS (f(a))`, `(a + b)`) are not covered.
+-/
+namespace LL2
+open LexLink
+
+theorem q2_words_plain : q2Words.all (fun k => allP k.toList) = true := by decide +kernel
+theorem cast_words_plain : Gen.castTypes.all (fun e => allP e.2.toList) = true := by decide +kernel
+theorem q2_words_occ : q2Words.all (fun k => !C01.occ k.toList) = true := by decide +kernel
+theorem cast_words_occ : Gen.castTypes.all (fun e => !C01.occ e.2.toList) = true := by decide +kernel
+
+theorem qw2_plain : QW2 plainKit where
+  ws := fun k hk => (List.all_eq_true.mp q2_words_plain) k hk
+  cts := fun e he => (List.all_eq_true.mp cast_words_plain) e he
+  s_lb := by show C05.plain '[' = true; decide
+  s_rb := by show C05.plain ']' = true; decide
+theorem qw2_occ : QW2 occKit where
+  ws := fun k hk => by
+    show C01.occ k.toList = false
+    simpa using (List.all_eq_true.mp q2_words_occ) k hk
+  cts := fun e he => by
+    show C01.occ e.2.toList = false
+    simpa using (List.all_eq_true.mp cast_words_occ) e he
+  s_lb := by show '[' ≠ '='; decide
+  s_rb := by show ']' ≠ '='; decide
+
+/-- every payload satisfies `leafOK`, every guard holds -/
+def LeafQ2 (d : Gen.D) (q : Query) : Prop := On2 (leafOK2 d) (leavesQ2 q)
+def LeafE4 (d : Gen.D) (e : Expr) : Prop := On2 (leafOK2 d) (leavesE4 e)
+/-- no payload contains `==` -/
+def noEq2 : Leaf2 → Prop
+  | .old x => noEqItem x
+  | .guard _ => True
+def NoEqQ2 (q : Query) : Prop := On2 noEq2 (leavesQ2 q)
+def NoEqE4 (e : Expr) : Prop := On2 noEq2 (leavesE4 e)
+
+theorem lv2_plain {d : Gen.D} {l : List Leaf2} (h : On2 (leafOK2 d) l) : Lv2 d plainKit l := by
+  intro x hx
+  refine ⟨h x hx, ?_⟩
+  cases x with
+  | old y => exact plain_item d y (h _ hx)
+  | guard p => trivial
+theorem lv2_occ {d : Gen.D} {l : List Leaf2} (h : On2 (leafOK2 d) l) (h2 : On2 noEq2 l) : Lv2 d occKit l := by
+  intro x hx
+  refine ⟨h x hx, ?_⟩
+  cases x with
+  | old y => exact h2 _ hx
+  | guard p => trivial
+
+end LL2
+
+open TQ2 LL2
+
+namespace C03
+
+/-- **C03.lex_prQ2**: on the larger fragment the printer succeeds (under the leaf hypotheses, which contain the dialect guards), prints
+`prQ2L d q`, and lexing the text gives exactly the token rendering `toksQ2 d noX q`. -/
+theorem lex_prQ2 (d : Gen.D) (q : Query) (hq : FragQ2 d q = true) (hl : LeafQ2 d q) :
+    ∃ str : String, PR.prQ d q = .ok str ∧ str.toList = prQ2L d q ∧ Lex.lex Gen.cfgS str.toList = .ok (toksQ2 d noX q) := by
+  have g := LL2.good_query d plainKit qw2_plain q hq (lv2_plain hl)
+  refine ⟨String.ofList (prQ2L d q), g.pr, String.toList_ofList, ?_⟩
+  rw [String.toList_ofList, Lex.lex_plain _ _ (fun c hc => (List.all_eq_true.mp g.q) c hc)]
+  exact C01.lexText_of_lx g.lx
+
+/-- the link in context -/
+theorem lex_prQ2_in_context (d : Gen.D) (q : Query) (hq : FragQ2 d q = true) (hl : LeafQ2 d q) : Lx (prQ2L d q) (toksQ2 d noX q) :=
+  (LL2.good_query d plainKit qw2_plain q hq (lv2_plain hl)).lx
+
+/-- **C03.tquery2_text**: T-parse on the larger fragment at TEXT level, with the entry points' own fuel. -/
+theorem tquery2_text (d : Gen.D) (q : Query) (hq : FragQ2 d q = true) (hl : LeafQ2 d q)
+    (hpre : dialectPre d (prQ2L d q) = prQ2L d q) :
+    ∃ (str : String) (ts : List Tok), PR.prQ d q = .ok str ∧
+      Lex.lex Gen.cfgS (dialectPre d str.toList) = .ok ts ∧ ts = toksQ2 d noX q ∧
+      pSelectStmt d (fuelFor ts) none ts = .ok (q, []) ∧
+      pStatement d (fuelFor ts) ts = .ok (.select q, []) ∧
+      parseStatementsText d str.toList = .ok [.select q] := by
+  obtain ⟨str, h1, h2, h3⟩ := lex_prQ2 d q hq hl
+  have hlex : Lex.lex Gen.cfgS (dialectPre d str.toList) = .ok (toksQ2 d noX q) := by rw [h2, hpre, ← h2]; exact h3
+  have hp1 : pSelectStmt d (fuelFor (toksQ2 d noX q)) none (toksQ2 d noX q) = .ok (q, []) := by
+    have := tquery2_entry_fuel d q hq [] rfl
+    simpa using this
+  have hp2 : pStatement d (fuelFor (toksQ2 d noX q)) (toksQ2 d noX q) = .ok (.select q, []) := by
+    have := tquery2_statement d q hq [] rfl (fuelFor (toksQ2 d noX q)) (by simp only [fuelFor]; omega)
+    simpa using this
+  exact ⟨str, toksQ2 d noX q, h1, hlex, rfl, hp1, hp2, C10.alone d str.toList (toksQ2 d noX q) (.select q) hlex hp2⟩
+
+/-- for HIVE the pre-pass hypothesis holds whenever no payload contains `==` -/
+theorem hive_pre_query2 (q : Query) (hq : FragQ2 .HIVE q = true) (hl : LeafQ2 .HIVE q) (hno : NoEqQ2 q) :
+    dialectPre .HIVE (prQ2L .HIVE q) = prQ2L .HIVE q :=
+  C01.hivePre_no_occ _ (LL2.good_query .HIVE occKit qw2_occ q hq (lv2_occ hl hno)).q
+
+end C03
+
+namespace C01
+
+/-- **C01.query_round_trip_text2**: print ∘ parse ∘ print = print on the larger fragment, through `pSelectStmt` and through the model of
+`parse_statements` -/
+theorem query_round_trip_text2 (d : Gen.D) (q : Query) (hq : FragQ2 d q = true) (hl : LeafQ2 d q)
+    (hpre : dialectPre d (prQ2L d q) = prQ2L d q) :
+    ∃ (str : String) (ts : List Tok), PR.prQ d q = .ok str ∧ Lex.lex Gen.cfgS (dialectPre d str.toList) = .ok ts ∧
+      pSelectStmt d (fuelFor ts) none ts = .ok (q, []) ∧
+      (∀ q', pSelectStmt d (fuelFor ts) none ts = .ok (q', []) → PR.prQ d q' = .ok str) ∧
+      (∀ sts, parseStatementsText d str.toList = .ok sts → sts.map (PR.prStmt d) = [.ok str]) := by
+  obtain ⟨str, ts, h1, h2, _, h3, _, h5⟩ := C03.tquery2_text d q hq hl hpre
+  refine ⟨str, ts, h1, h2, h3, ?_, ?_⟩
+  · intro q' hq'
+    rw [h3] at hq'
+    simp only [Except.ok.injEq, Prod.mk.injEq, and_true] at hq'
+    rw [← hq']; exact h1
+  · intro sts hsts
+    rw [h5] at hsts
+    simp only [Except.ok.injEq] at hsts
+    rw [← hsts]
+    simp [PR.prStmt, h1]
+
+end C01
+
+namespace C02
+
+/-- **C02.lex_prE4**: the expression half — CAST, EXTRACT, IF, window functions, array index besides everything of `C02.lex_prE3` -/
+theorem lex_prE4 (d : Gen.D) (e : Expr) (hf : FragE4 d e = true) (hl : LeafE4 d e) :
+    ∃ s : String, PR.prE d e = .ok s ∧ s.toList = prE4L d e ∧ Lex.lex Gen.cfgS s.toList = .ok (toksE4 d noX e) := by
+  have g := LL2.good_expr d plainKit qw2_plain e hf (lv2_plain hl)
+  refine ⟨String.ofList (prE4L d e), g.pr, String.toList_ofList, ?_⟩
+  rw [String.toList_ofList, Lex.lex_plain _ _ (fun c hc => (List.all_eq_true.mp g.q) c hc)]
+  exact C01.lexText_of_lx g.lx
+
+/-- **C02.tparse4_text**: T-parse of expressions of the larger fragment at TEXT level: text → pre-pass → lexer → `pOr` with the entry
+point's fuel gives the tree back; the model of `parse_logical_or_level_expression(text, dialect)` returns `(e, 0)`; printing the result
+gives the same text -/
+theorem tparse4_text (d : Gen.D) (e : Expr) (hf : FragE4 d e = true) (hl : LeafE4 d e)
+    (hpre : dialectPre d (prE4L d e) = prE4L d e) :
+    ∃ (s : String) (ts : List Tok), PR.prE d e = .ok s ∧ Lex.lex Gen.cfgS (dialectPre d s.toList) = .ok ts ∧ ts = toksE4 d noX e ∧
+      pOr d (fuelFor ts) ts = .ok (e, []) ∧
+      PM.parseText "logical_or_level_expression" d s.toList = .ok (e.toVal, 0) ∧
+      (∀ e', pOr d (fuelFor ts) ts = .ok (e', []) → PR.prE d e' = .ok s) := by
+  obtain ⟨s, hs, hsl, hlex⟩ := lex_prE4 d e hf hl
+  have hlex2 : Lex.lex Gen.cfgS (dialectPre d s.toList) = .ok (toksE4 d noX e) := by rw [hsl, hpre, ← hsl]; exact hlex
+  have hp : pOr d (fuelFor (toksE4 d noX e)) (toksE4 d noX e) = .ok (e, []) := by
+    have := tparse4 d e hf [] rfl (fuelFor (toksE4 d noX e)) (by simp only [fuelFor]; omega)
+    simpa using this
+  refine ⟨s, toksE4 d noX e, hs, hlex2, rfl, hp, ?_, ?_⟩
+  · unfold PM.parseText
+    have he := C01.entry_or
+    cases hfd : PM.entries.find? (·.1 == "logical_or_level_expression") with
+    | none => rw [hfd] at he; cases he
+    | some pr =>
+      rw [hfd] at he
+      simp only [Option.map_some, Option.some.injEq] at he
+      obtain ⟨nm, p⟩ := pr
+      simp only at he
+      subst he
+      simp only [hlex2, PM.exprEntry, hp, List.length_nil]
+  · intro e' he'
+    rw [hp] at he'
+    simp only [Except.ok.injEq, Prod.mk.injEq, and_true] at he'
+    rw [← he']; exact hs
+
+theorem hive_pre_expr4 (e : Expr) (hf : FragE4 .HIVE e = true) (hl : LeafE4 .HIVE e) (hno : NoEqE4 e) :
+    dialectPre .HIVE (prE4L .HIVE e) = prE4L .HIVE e :=
+  C01.hivePre_no_occ _ (LL2.good_expr .HIVE occKit qw2_occ e hf (lv2_occ hl hno)).q
+
+end C02
+
+/-! ## a decidable form of the leaf hypotheses, non-vacuity -/
+namespace C03.Q2Text
+
+def leafOK2B (d : Gen.D) : Leaf2 → Bool
+  | .old x => leafOKB d x
+  | .guard p => p d
+def leafQ2B (d : Gen.D) (q : Query) : Bool := (leavesQ2 q).all (leafOK2B d)
+def leafE4B (d : Gen.D) (e : Expr) : Bool := (leavesE4 e).all (leafOK2B d)
+def noEq2B (l : List Leaf2) : Bool := l.all fun x => match x with | .old y => (strs y).all fun s => !C01.occ s.toList | .guard _ => true
+
+theorem leafOK2_of_B (d : Gen.D) (x : Leaf2) (h : leafOK2B d x = true) : leafOK2 d x := by
+  cases x with
+  | old y => exact leafOK_of_B d y h
+  | guard p => exact h
+theorem leafQ2_of_B (d : Gen.D) (q : Query) (h : leafQ2B d q = true) : LeafQ2 d q :=
+  fun x hx => leafOK2_of_B d x ((List.all_eq_true.mp h) x hx)
+theorem leafE4_of_B (d : Gen.D) (e : Expr) (h : leafE4B d e = true) : LeafE4 d e :=
+  fun x hx => leafOK2_of_B d x ((List.all_eq_true.mp h) x hx)
+theorem noEq2_of_B (l : List Leaf2) (h : noEq2B l = true) : On2 noEq2 l := by
+  intro x hx
+  have := (List.all_eq_true.mp h) x hx
+  cases x with
+  | old y =>
+    intro s hs
+    have := (List.all_eq_true.mp this) s hs
+    simpa using this
+  | guard p => trivial
+
+/-- the mirror is the printer's text, the leaf hypotheses hold, the lexer gives the rendering (compiled evaluation, a test) -/
+def agreesT2 (d : Gen.D) (q : Query) : Bool :=
+  FragQ2 d q && leafQ2B d q && (match PR.prQ d q with | .ok x => x.toList == prQ2L d q && eqbL (lexed x) (toksQ2 d noX q) | .error _ => false)
+/-- `q2w3` of Props/C03Q2.lean with index expressions inside the text-level restriction: a numeral, a quoted string, a bracketed expression -/
+def q2w3t : Query := .single (q2sel2 [(.index (col "a") (lit "1"), some "f"), (.index (.func none "split" [col "s", lit "','"]) (.compare "EQ" (col "i") (lit "1")), none),
+    (.index (.column (some "t") "m") (lit "'k'"), none), (.index (col "a") (col "j"), none)]
+  (some [tb "t"]) (some (.compare "GT" (col "x") (lit "0"))) [.mk "JOIN" (tb "u") (some (.on (.compare "EQ" (col "a") (col "b"))))] none none
+  [.mk false (.func none "explode" [col "arr"]) "v" ["x"], .mk true (.func none "posexplode" [col "m"]) "w" ["k", "val"]]
+  (some [.mk (col "a") true false false]) (some [col "a", col "b"]) (some [col "c"]))
+#guard [q2w1, q2w2, q2w2b, q2w2c, q2w4].all (agreesT2 .MYSQL) && [q2w1, q2w2, q2w2b, q2w2c, q2w3t, q2w4].all (agreesT2 .HIVE) &&
+  [q2w1, q2w2, q2w4].all (agreesT2 .ORACLE) && [q2w1, q2w2, q2w2c, q2w4].all (agreesT2 .DEFAULT) && [q2w1, q2w2].all (agreesT2 .POSTGRE_SQL)
+-- the guards: the Hive constructs for MYSQL, an unbracketed compound index expression, a call as the single element of a grouping set
+#guard FragQ2 .MYSQL q2w3t && !leafQ2B .MYSQL q2w3t && FragQ2 .HIVE q2w3 && !leafQ2B .HIVE q2w3 &&
+  !leafE4B .HIVE (.index (col "a") (.compute (col "i") "PLUS" (lit "1"))) && leafE4B .HIVE (.index (col "a") (.compare "EQ" (col "i") (lit "1"))) &&
+  !leafQ2B .HIVE (.single (q2sel2 [(col "a", none)] (some [tb "t"]) none [] (some (.mk [] (some [[.func none "f" [col "a"]]]) false false))))
+-- what the printer writes
+#guard prE4L .HIVE (.index (col "a") (lit "1")) == "`a`[1]".toList &&
+  prE4L .MYSQL (.cast (col "a") true "DECIMAL" (some [10, 2])) == "CAST(`a` AS SIGNED DECIMAL (10, 2))".toList &&
+  prE4L .MYSQL (.window (.agg "sum" [col "a"] false) [col "b"] [.mk (col "c") true true false] (some (.num 1 true, .current))) ==
+    "sum(`a`) OVER (PARTITION BY `b` ORDER BY `c` DESC NULLS FIRST ROWS BETWEEN 1 PRECEDING AND CURRENT ROW)".toList
+-- the public entry point on the printed text
+#guard [q2w1, q2w2, q2w2b, q2w2c, q2w4].all fun q => (match PM.parseStatementsText .MYSQL (prQ2L .MYSQL q) with
+  | .ok [st] => Drv.showVal st.toVal == Drv.showVal (Stmt.select q).toVal | _ => false)
+#guard [q2w1, q2w2, q2w3t, q2w4].all fun q => (match PM.parseStatementsText .HIVE (prQ2L .HIVE q) with
+  | .ok [st] => Drv.showVal st.toVal == Drv.showVal (Stmt.select q).toVal | _ => false)
+
+/-- a kernel-checked instance without LIMIT / numerals in frames (kernel `decide` gets stuck on `toString` of integers):
+`SELECT CAST(a AS SIGNED INT) AS k, EXTRACT(y FROM ts), rank() OVER (PARTITION BY a ORDER BY c DESC NULLS LAST ROWS BETWEEN UNBOUNDED
+PRECEDING AND CURRENT ROW), m['k'] FROM t LATERAL VIEW explode(arr) v AS x GROUP BY a GROUPING SETS ((), a, (a, b)) WITH ROLLUP SORT BY a` -/
+def qk : Query := .single (q2sel2
+  [(.cast (col "a") true "INT" none, some "k"), (.extract (col "y") (col "ts"), none),
+   (.window (.func none "rank" []) [col "a"] [.mk (col "c") true false true] (some (.unbounded true, .current)), none),
+   (.index (col "m") (lit "'k'"), none)]
+  (some [tb "t"]) none [] (some (.mk [col "a"] (some [[], [col "a"], [col "a", col "b"]]) false true)) none
+  [.mk false (.func none "explode" [col "arr"]) "v" ["x"]] (some [.mk (col "a") false false false]))
+#guard agreesT2 .HIVE qk
+set_option maxRecDepth 100000 in
+example : ∃ str ts, PR.prQ .HIVE qk = .ok str ∧ Lex.lex Gen.cfgS (dialectPre .HIVE str.toList) = .ok ts ∧ ts = toksQ2 .HIVE noX qk ∧
+    pSelectStmt .HIVE (fuelFor ts) none ts = .ok (qk, []) ∧ pStatement .HIVE (fuelFor ts) ts = .ok (.select qk, []) ∧
+    parseStatementsText .HIVE str.toList = .ok [.select qk] :=
+  tquery2_text .HIVE qk (by decide) (leafQ2_of_B _ _ (by decide +kernel))
+    (hive_pre_query2 qk (by decide) (leafQ2_of_B _ _ (by decide +kernel)) (noEq2_of_B _ (by decide +kernel)))
+def ek : Expr := .compare "GT" (.cast (.compute (col "a") "PLUS" (col "b")) false "CHAR" none)
+  (.func none "IF" [.extract (col "y") (col "ts"), .window (.agg "sum" [col "x"] false) [] [] none, lit "'z'"])
+set_option maxRecDepth 100000 in
+example : ∃ s ts, PR.prE .MYSQL ek = .ok s ∧ Lex.lex Gen.cfgS (dialectPre .MYSQL s.toList) = .ok ts ∧ ts = toksE4 .MYSQL noX ek ∧
+    pOr .MYSQL (fuelFor ts) ts = .ok (ek, []) ∧ PM.parseText "logical_or_level_expression" .MYSQL s.toList = .ok (ek.toVal, 0) ∧
+    (∀ e', pOr .MYSQL (fuelFor ts) ts = .ok (e', []) → PR.prE .MYSQL e' = .ok s) :=
+  C02.tparse4_text .MYSQL ek (by decide) (leafE4_of_B _ _ (by decide +kernel)) (C01.dialectPre_id _ (by decide) (by decide) _)
+
+end C03.Q2Text
